@@ -730,8 +730,12 @@ pub fn denote(env: &Env) -> Result<ExpectedTx, EvalErr> {
                 if q.is_negative() || q > u64_max() {
                     oor.push(format!("withdrawal amount {}", q));
                 }
-                if x.withdrawals.insert(acct.clone(), q).is_some() {
-                    return unsupported("two withdrawals from one account");
+                // two blocks on one account: the withdrawals map has one entry per account, so the blocks must
+                // agree on the amount for the template to denote anything
+                if let Some(prev) = x.withdrawals.insert(acct.clone(), q.clone()) {
+                    if prev != q {
+                        return unsupported("two withdrawals from one account with different amounts");
+                    }
                 }
                 if let Some(r) = redeemer {
                     reward_redeemers.push((acct, to_pdata(&ev.eval(r, Ctx::Plain)?)?));
@@ -808,7 +812,12 @@ pub fn denote(env: &Env) -> Result<ExpectedTx, EvalErr> {
     accounts.sort_by_key(|a| (a[0] & 0x0f, a[0] >> 4 != 15, a[1..].to_vec()));
     for (a, data) in reward_redeemers {
         let ix = accounts.iter().position(|q| *q == a).unwrap() as u64;
-        x.redeemers.insert((3, ix), data);
+        if let Some(prev) = x.redeemers.insert((3, ix), data.clone()) {
+            if prev != data {
+                // two blocks on one account with different redeemers: one item, two redeemers
+                x.redeemer_conflict = true;
+            }
+        }
     }
 
     x.wide = ev.wide;
